@@ -71,6 +71,7 @@ func Build(state *core.BuildState, target *core.BuildTarget, remote bool) {
 			return
 		}
 		state.LogBuildError(target.Label, core.TargetBuildFailed, err, "Build failed: %s", err)
+		verifhook.Point("build.failed")
 		if err := RemoveOutputs(target); err != nil {
 			log.Errorf("Failed to remove outputs for %s: %s", target.Label, err)
 		}
